@@ -128,3 +128,33 @@ Proof. reflexivity. Qed.
 
 Example hs_nonvacuous : hs_dom {| hs_version := 2; hs_codec := 1; hs_platform := 9; hs_reserve := 5 |} = true.
 Proof. reflexivity. Qed.
+
+(* ---- any registry (aliases registered by the application) ---- *)
+Lemma reg_lookup_register_same r k impl : reg_lookup (reg_register r k impl) k = Some impl.
+Proof. unfold reg_lookup, reg_register. cbn. now rewrite N.eqb_refl. Qed.
+Lemma reg_lookup_register_other r k impl k' : k' <> k -> reg_lookup (reg_register r k impl) k' = reg_lookup r k'.
+Proof. intros H. unfold reg_lookup, reg_register. cbn. destruct (k =? k') eqn:E; [apply N.eqb_eq in E; congruence|reflexivity]. Qed.
+
+Theorem ctx_handshake_in_adopts r c h impl : reg_lookup r (hs_version h) = Some impl ->
+  ctx_handshake_in r c h = Ok {| cx_version := hs_version h; cx_codec := hs_codec h; cx_platform := hs_platform h; cx_handshaked := true |}.
+Proof. intros L. unfold ctx_handshake_in, get_protocol_in. rewrite L. reflexivity. Qed.
+Theorem ctx_handshake_in_rejects r c h : reg_lookup r (hs_version h) = None -> ctx_handshake_in r c h = Err EInvalidVersion.
+Proof. intros L. unfold ctx_handshake_in, get_protocol_in. rewrite L. reflexivity. Qed.
+(* on the registry the init functions leave behind this is the model the exhaustive sweep is compared with *)
+Theorem ctx_handshake_in_builtin c h : ctx_handshake_in c_protocol_versions c h = ctx_handshake c h.
+Proof.
+  unfold ctx_handshake_in, ctx_handshake, get_protocol_in, get_protocol, registered, reg_lookup.
+  destruct registry_is_v1_v2 as [-> ->]. cbn [find existsb fst snd option_map].
+  destruct (1 =? hs_version h) eqn:E1.
+  - apply N.eqb_eq in E1. rewrite <- E1. reflexivity.
+  - destruct (2 =? hs_version h) eqn:E2.
+    + apply N.eqb_eq in E2. rewrite <- E2. reflexivity.
+    + rewrite N.eqb_sym in E1. rewrite N.eqb_sym in E2. rewrite E1, E2. reflexivity.
+Qed.
+(* an alias: registering an implementation under a further number makes exactly that number acceptable, and the
+   context adopts the number, not the implementation's own version *)
+Theorem alias_adopts_its_number r k impl c h : hs_version h = k ->
+  ctx_handshake_in (reg_register r k impl) c h =
+  Ok {| cx_version := k; cx_codec := hs_codec h; cx_platform := hs_platform h; cx_handshaked := true |}.
+Proof. intros <-. eapply ctx_handshake_in_adopts. apply reg_lookup_register_same. Qed.
+
